@@ -324,6 +324,7 @@ fn run_direct(prog: &[String], directs: &[String]) -> Option<String> {
     let mut term = Term::new();
     let mut o = Opts::default();
     o.max_calls = 4000;
+    o.files.insert("F".to_string(), "10 PRINT \"CHAINED\";A;B$\n20 A=3".to_string());
     for l in prog {
         term.enter_raw(l);
         term.run(&mut o);
@@ -386,7 +387,11 @@ fn check_direct_vs_oneline(t: &mut Tape, ctx: &Ctx) -> Outcome {
     let mut o = GenOpts::full();
     o.errors = t.chance(1, 3);
     let stmts = gen::direct_list(t, &o);
-    let d = render_stmts(&stmts);
+    let mut d = render_stmts(&stmts);
+    // requests to the host are statements like any other: chaining to a file, clearing the screen
+    if t.chance(1, 8) && !d.contains("REM") && !d.contains('\'') {
+        d = format!("{}:{}", d, t.pick(&["RUN \"F\"", "CLS:PRINT 1", "RUN \"NOSUCH\"", "RUN \"F\":PRINT \"NOT REACHED\""]));
+    }
     if d.len() > 900 {
         return Outcome::discard("too long");
     }
